@@ -78,6 +78,13 @@ def forge_v2(spec, device_id, frame, seed):
     if k == "v2_trailing":
         # an intact packet with surplus bytes behind it (a second marker, the start of another packet, padding)
         return codec.v2_encode(device_id, frame, magic=b"\x20\x80") + bytes.fromhex(spec["hex"])
+    if k == "v2_header":
+        # an intact, correctly signed and decryptable packet whose header fields nobody promised anything about: the
+        # unit's clock (not a calendar time at all, or an impossible one), message id, the reserved tail
+        return codec.v2_encode(device_id, frame, magic=bytes.fromhex(spec.get("magic", "2080")),
+                               ts=bytes.fromhex(spec["ts"]) if "ts" in spec else _rb(seed, 8),
+                               msg_id=_rb(seed + 1, 4) if spec.get("msg_id", True) else bytes(4),
+                               tail12=_rb(seed + 2, 12) if spec.get("tail", True) else bytes(12))
     if k == "random":
         return _rb(seed, spec["n"])
     if k == "empty_frame":
